@@ -191,6 +191,8 @@ type preservation struct {
 
 type violation struct {
 	detail, expected, observed string
+	prop                       string   // the longhand whose winner differs ("" for a layer-order difference)
+	lacking                    []string // the syntax features the failing environment does not understand
 }
 
 func describeTarget(t cssref.Target) string {
@@ -282,15 +284,16 @@ func (p *preservation) run() (skip string, v *violation) {
 			if resIn[mask] == nil {
 				continue
 			}
-			env := func() string {
+			lack := func() []string {
 				var lacking []string
 				for i, f := range relevant {
 					if mask&(1<<i) != 0 {
 						lacking = append(lacking, f)
 					}
 				}
-				return dev.Env(lacking).String()
+				return lacking
 			}
+			env := func() string { return dev.Env(lack()).String() }
 			understandsAllOfInput := mask&inMask == 0
 			for ti := range tIn {
 				win, wout := resIn[mask].Winners[ti], resOut[mask].Winners[ti]
@@ -301,6 +304,7 @@ func (p *preservation) run() (skip string, v *violation) {
 							detail:   fmt.Sprintf("%s of %s has a winning declaration in the input but none in the output, environment %s", prop, describeTarget(tIn[ti]), env()),
 							expected: prop + ": " + wi.Val.String() + "  ⟵ " + wi.Where,
 							observed: "(no declaration)",
+							prop:     prop, lacking: lack(),
 						}
 					}
 					if understandsAllOfInput && !cssref.EqualValues(wi.Val, wo.Val, p.tol) {
@@ -308,6 +312,7 @@ func (p *preservation) run() (skip string, v *violation) {
 							detail:   fmt.Sprintf("%s of %s differs in an environment that understands all of the input: %s", prop, describeTarget(tIn[ti]), env()),
 							expected: prop + ": " + wi.Val.String() + "  ⟵ " + wi.Where,
 							observed: prop + ": " + wo.Val.String() + "  ⟵ " + wo.Where,
+							prop:     prop, lacking: lack(),
 						}
 					}
 				}
@@ -318,6 +323,7 @@ func (p *preservation) run() (skip string, v *violation) {
 								detail:   fmt.Sprintf("%s of %s has a winning declaration only in the output, in an environment that understands all of the input: %s", prop, describeTarget(tIn[ti]), env()),
 								expected: "(no declaration)",
 								observed: prop + ": " + wo.Val.String() + "  ⟵ " + wo.Where,
+								prop:     prop, lacking: lack(),
 							}
 						}
 						continue
@@ -344,6 +350,7 @@ func (p *preservation) run() (skip string, v *violation) {
 							detail:   fmt.Sprintf("%s of %s in environment %s: the output's winner is not the input's winner in this or any more capable environment", prop, describeTarget(tIn[ti]), env()),
 							expected: "one of: " + strings.Join(dedupe(tried), " | "),
 							observed: prop + ": " + wo.Val.String() + "  ⟵ " + wo.Where,
+							prop:     prop, lacking: lack(),
 						}
 					}
 				}
@@ -439,14 +446,16 @@ func shapeOf(s *cssref.Sheet) shape {
 }
 
 // judgeSheet runs esbuild on css and checks cascade preservation.
-func judgeSheet(css string, cfg Config, single bool, devices []cssgen.Device) vdrv.Verdict {
+// The second result describes the failure (nil unless the verdict is a failure); the known-finding
+// signatures are predicates over the case and that description.
+func judgeSheet(css string, cfg Config, single bool, devices []cssgen.Device) (vdrv.Verdict, *violation) {
 	out, warnings, errs := transform(css, cfg)
 	if len(errs) > 0 {
-		return vdrv.Skip("esbuild-error:" + firstWords(errs[0], 6))
+		return vdrv.Skip("esbuild-error:" + firstWords(errs[0], 6)), nil
 	}
 	for _, w := range warnings {
 		if strings.Contains(w, "nesting syntax is not supported in the configured target") {
-			return vdrv.Skip("documented:nesting-needs-is-warning")
+			return vdrv.Skip("documented:nesting-needs-is-warning"), nil
 		}
 	}
 	in := cssref.Parse(css)
@@ -467,10 +476,10 @@ func judgeSheet(css string, cfg Config, single bool, devices []cssgen.Device) vd
 	}
 	skip, viol := p.run()
 	if skip != "" {
-		return vdrv.Skip(skip)
+		return vdrv.Skip(skip), nil
 	}
 	if viol != nil {
-		return vdrv.Fail(viol.detail+"\n--- esbuild output\n"+out, viol.expected, viol.observed)
+		return vdrv.Fail(viol.detail+"\n--- esbuild output\n"+out, viol.expected, viol.observed), viol
 	}
 	si, so := shapeOf(in), shapeOf(os)
 	changed := si.text != so.text
@@ -502,7 +511,7 @@ func judgeSheet(css string, cfg Config, single bool, devices []cssgen.Device) vd
 	}
 	v := vdrv.Pass(changed, cls...)
 	v.Observed = strings.TrimSpace(out)
-	return v
+	return v, nil
 }
 
 func firstWords(s string, n int) string {
